@@ -752,7 +752,7 @@ class RefResolver(object):
         """
         Resolve the given reference.
         """
-        url = self._urljoin_cache(self.resolution_scope, ref)
+        url = self._urljoin_cache(self.base_uri, ref)
         return url, self._remote_cache(url)
 
     def resolve_from_url(self, url):
